@@ -202,6 +202,9 @@ func c17Random(r *evid.Run, pool *wproto.Pool) {
 		c := tok.TraceConc(rng, p.NChunks)
 		// names with the characters encoding/json escapes for HTML, and a '%'
 		c.Chunks["k1"], c.Chunks["k2"], c.Chunks["k3"] = "R&D", "<b>", "50%d"
+		if i%5 == 0 {
+			c.Chunks["k4"] = "x/y" // invalid as a path element: dry-run must reject it in both builds
+		}
 		doc := spell(rng, randForest(rng, p), randSpelling(rng))
 		switch i % 3 {
 		case 1:
@@ -219,6 +222,21 @@ func c17Random(r *evid.Run, pool *wproto.Pool) {
 		}()
 	}
 	wg.Wait()
+	// a line beyond bufio.Scanner's token limit, in different positions
+	long := strings.Repeat("x", 70000)
+	for _, doc := range []string{"- " + long + "\n", "- a\n  - " + long + "\n- b\n", "- a\r\n  - b\r\n"} {
+		for _, m := range wasmModes {
+			c := tok.MakeConc(0, 1, true, allChunkIDs, nil)
+			def := real.OutputMD(doc, m.opts(c)...)
+			rq := m.req(c)
+			rq.Doc = doc
+			w := pool.Call(rq, 60*time.Second)
+			r.Count("real_calls", 2)
+			if (w.Class == "ok") != (def.Class() == "ok") || (w.Class == "ok" && w.Out != def.Out) {
+				r.Mismatch("wasm-"+m.name+":long-or-crlf-input-differs", fmt.Sprintf("doc of %d bytes (%q...): default=%s tinywasm=%s", len(doc), doc[:12], def.Class(), w.Class), map[string]any{"doc_prefix": doc[:12], "len": len(doc)})
+			}
+		}
+	}
 	r.Count("random_documents", n)
 }
 
